@@ -40,14 +40,48 @@ def event_name(kind, detail):
 
 
 def run(facts, rep, tier, ctx):
+    from ..pathflow import World
+    run_world(facts, rep, tier, ctx, World(facts, False), rep)
+    wa = World(facts, True)
+    rep.ob("R16.A", "async_vfs", "async world present", wa.present(), "", "")
+    if wa.present():
+        # the async in-memory backend: same rules on async_std's RwLock (guards held across .await included)
+        from .c10 import _Prefixed
+        run_world(facts, _Prefixed(rep, "A"), tier, ctx, wa, rep)
+    # R16.3p publication happens-before the return of flush/drop (both worlds): a publication that is skipped or handed
+    # to a detached task when the lock is busy loses the update for the writer's own later calls
+    from ..handlerules import Handles
+    from ..report import Report
+    D = Discharger(facts, load_records(os.path.join(ctx["V"], "rules", "panic_records.json")))
+    for asyncw in (False, True):
+        w_ = World(facts, asyncw)
+        if not w_.present():
+            continue
+        h = Handles(facts, asyncw, D)
+        scratch = Report("x")
+        h.writer_rules(scratch, "P", "x", "y")
+        k = 0
+        for o in scratch.obligations:
+            if o["rule"] == "P":
+                k += 1
+                rep.ob(("A/" if asyncw else "") + "R16.3p", o["fn"], o["key"].split("|")[2], o["ok"], o["detail"], o["loc"])
+        rep.floor("publication obligations (%s)" % w_.tag, k, 5)
+    rep.assume("every access to the map goes through a guard (enforced by the type system: the map lives inside the RwLock)")
+    rep.assume("per-call linearizability only: compositions in the path layer (get_parent + create_dir) are separate calls by design")
+
+
+def run_world(facts, rep, tier, ctx, w, rep0):
+    asyncw = w.asyncw
+    MEMORY = w.memory
+    TRAIT = w.trait.rsplit("::", 1)[1]
     inter = Inter(facts)
     ls = LockSummary(facts, inter)
     ops = facts.impl_methods(TRAIT, MEMORY)
-    rep.floor("FileSystem methods of MemoryFS", len(ops), 12)
+    rep.floor("FileSystem methods of the in-memory backend (%s)" % w.tag, len(ops), 9 if asyncw else 12)
     n_acq = 0
     n_regions_checked = 0
     # all bodies of the memory module that take part (methods, helpers, handle impls, closures)
-    mem_bodies = [b for b in facts.bodies if b.file.endswith("impls/memory.rs") and "async_vfs" not in b.file
+    mem_bodies = [b for b in facts.bodies if b.file.endswith("impls/memory.rs") and (("async_vfs" in b.file) == asyncw)
                   and not (b.impl and b.impl.get("derived"))]
     for b in mem_bodies:
         li = ls.info(b)
@@ -94,10 +128,11 @@ def run(facts, rep, tier, ctx):
                             if cb is not None and ls.acquires(cb):
                                 rep.fail("R16.2", b.id, "closure acquiring the lock under live guard",
                                          "closure %s runs inside the critical section and acquires the lock" % cb.id, t.line)
-    rep.floor("lock acquisitions in impls/memory.rs", n_acq, 13)
+    rep.floor("lock acquisitions in impls/memory.rs (%s)" % w.tag, n_acq, 10 if asyncw else 13)
 
     # R16.1 one critical section per operation
-    for name, b in sorted(ops.items()):
+    for name, b0 in sorted(ops.items()):
+        b = inter.code_body(b0)
         ev = ls.events(b)
         tr = get_tracer(facts, b)
         cfg = tr.cfg
@@ -126,12 +161,67 @@ def run(facts, rep, tier, ctx):
                        "two critical sections on one path: the operation releases the lock after '%s' and takes it again "
                        "for '%s'; another thread can run in between (check-then-act)" % (n1, n2), line)
 
+    # R16.5 a removal is decided inside its own critical section: either a lookup of the same key made under the same
+    # guard dominates it, or its own outcome (Some/None) decides the result.  (A check made in an earlier region — e.g.
+    # through a callee that locks for itself — can be stale by the time the write lock is held: two racing removals
+    # would both report success.)
+    from ..terms import walk
+    n5 = 0
+    for name, b0 in sorted(ops.items()):
+        b = inter.code_body(b0)
+        li = ls.info(b)
+        tr = get_tracer(facts, b)
+        for blk in b.calls():
+            sh = short(blk.term.callee() or "")
+            is_ins = sh in ("HashMap::insert", "VacantEntry::insert", "Entry::or_insert", "Entry::or_insert_with")
+            if sh not in ("HashMap::remove", "HashMap::remove_entry") and not is_ins:
+                continue
+            region = set()
+            for a in li.acqs:
+                if blk.idx in a.region or a.bb == blk.idx:
+                    region |= a.region
+                    region.add(a.bb)
+            local = False
+            for g in tr.guards_at(blk.idx):
+                for x in walk(g[1]):
+                    if x[0] == "call" and isinstance(x[1], str) and short(x[1]) in ("HashMap::get", "HashMap::get_mut", "HashMap::contains_key", "HashMap::entry") \
+                            and len(x) > 3 and x[3] and x[3][0] == b.id and x[3][1] in region:
+                        local = True
+            if is_ins and not local:
+                # a type check on both arms of `if let Some(e) = map.get(k)` does not dominate: accept a lookup made under the
+                # same guard on every path to the insert
+                sets = tr.path_guard_sets(blk.idx)
+                if sets is not None and sets:
+                    local = all(any(x[0] == "call" and isinstance(x[1], str) and short(x[1]) in ("HashMap::get", "HashMap::get_mut", "HashMap::contains_key", "HashMap::entry")
+                                    and len(x) > 3 and x[3] and x[3][0] == b.id and x[3][1] in region
+                                    for g in gs for x in walk(g[1])) for gs in sets)
+            own = False
+            for blk2 in b.blocks:
+                if blk2.cleanup or blk2.term.kind != "switch":
+                    continue
+                dt = tr.operand(blk2.term.discr)
+                if any(x[0] == "call" and len(x) > 3 and x[3] == (b.id, blk.idx) for x in walk(dt)):
+                    own = True
+            n5 += 1
+            if is_ins:
+                rep.ob("R16.5", b.id, "insertion decided inside its own critical section", local,
+                       "occupancy looked up under the same guard" if local else
+                       "the map insertion is not preceded by a lookup of the map under the same guard: the vacancy / type check "
+                       "was made in an earlier critical section and can be stale (lost update or a directory overwritten)", blk.term.line)
+                continue
+            rep.ob("R16.5", b.id, "removal decided inside its own critical section", local or own,
+                   "lookup under the same guard" if local else "the removal's own outcome is checked" if own else
+                   "HashMap::remove is neither dominated by a lookup made under the same guard nor is its result checked: the "
+                   "existence check happened in an earlier critical section, so two racing calls both report success "
+                   "(no sequential order explains two successful removals of one entry)", blk.term.line)
+    rep.floor("mutation sites checked for in-region decision", n5, 4)
+
     # R16.3 publication re-validates
     pubs = []
     for b in mem_bodies:
-        if b.impl and b.impl["self_ty"].endswith("WritableFile") and b.name in ("flush",):
+        if b.impl and b.impl["self_ty"].endswith("WritableFile") and b.name in (("drop",) if asyncw else ("flush",)):
             pubs.append(b)
-    rep.floor("writer publication functions (flush)", len(pubs), 1)
+    rep.floor("writer publication functions (%s)" % ("drop" if asyncw else "flush"), len(pubs), 1)
     D = Discharger(facts, load_records(os.path.join(ctx["V"], "rules", "panic_records.json")))
     for b in pubs:
         li = ls.info(b)
@@ -160,8 +250,6 @@ def run(facts, rep, tier, ctx):
                        "an orphan or a lost update under some schedule (and sequentially with a late drop)", t.line)
 
     # panic under lock (shared with C13)
-    bad = D.panics_under_lock()
+    bad = D.panics_under_lock(async_locks=asyncw)
     rep.ob("R16.2", MEMORY, "no undischarged panic site inside a lock region", not bad,
            "; ".join("%s at %s" % (s.desc, s.line) for (_, s, _) in bad[:4]) if bad else "lock can never be poisoned", "")
-    rep.assume("every access to the map goes through a guard (enforced by the type system: the map lives inside the RwLock)")
-    rep.assume("per-call linearizability only: compositions in the path layer (get_parent + create_dir) are separate calls by design")
